@@ -106,8 +106,9 @@ var allKinds = []string{
 	"panic", "panic-multiline", "if-cond", "elseif-cond", "for-init", "for-cond", "for-post", "range-expr",
 	"switch-tag", "switch-case", "typeswitch", "after-rawstring", "rawstring-inside", "after-comment", "comment-inside",
 	"incdec", "defer-arg", "go-arg", "labeled-loop", "nested-block", "closure-call", "in-defer-closure", "assign-struct-field",
+	"after-funclit", "after-funclit-inline",
 }
-var blockingKinds = []string{"send", "recv-expr", "select-send", "if-cond-flat", "for-cond-flat", "switch-case-flat", "elseif-cond-flat", "after-block"}
+var blockingKinds = []string{"send", "recv-expr", "select-send", "if-cond-flat", "for-cond-flat", "switch-case-flat", "elseif-cond-flat", "after-block", "elseif3-cond-blk", "switch-case3-blk", "after-funclit-blk"}
 var nonASCIIKinds = []string{"nonascii-field", "nonascii-field2", "nonascii-method-call"}
 
 // chanOps returns statements with channel operations (they make the enclosing statement flattened).
@@ -204,6 +205,34 @@ func (g *gen) emitKind(s *srcB, kind, ind string) {
 		} else {
 			s.L(ind + "\ts += 3")
 		}
+		s.L(ind + "}")
+	case "after-funclit":
+		// the rest of a statement after a function literal belongs to the statement
+		g.site(kind, s.L(ind+"s += apply(func() int {\n"+ind+"\treturn 1\n"+ind+"}, "+e+")"))
+	case "after-funclit-inline":
+		g.site(kind, s.L(ind+"s += apply(func() int { return 2 }, 1) + "+e))
+	case "after-funclit-blk":
+		s.L(ind + "ch <- 3")
+		g.site(kind, s.L(ind+"s += apply(func() int {\n"+ind+"\treturn 1\n"+ind+"}, <-ch) + "+e))
+	case "elseif3-cond-blk":
+		// the condition of a later else-if suspends: its code belongs to that clause
+		s.L(ind + "ch <- 7")
+		head := s.L(ind + "if s == -77 {")
+		s.L(ind + "\ts++")
+		s.L(ind + "} else if s == -78 {")
+		s.L(ind + "\ts += 2")
+		g.site(kind, s.L(ind+"} else if <-ch+"+e+" == -5 {"), head)
+		s.L(ind + "\ts += 3")
+		s.L(ind + "}")
+	case "switch-case3-blk":
+		s.L(ind + "ch <- 7")
+		head := s.L(ind + "switch {")
+		s.L(ind + "case s == -99:")
+		s.L(ind + "\ts++")
+		s.L(ind + "case s == -98:")
+		s.L(ind + "\ts += 2")
+		g.site(kind, s.L(ind+"case <-ch+"+e+" == -5:"), head)
+		s.L(ind + "\ts += 3")
 		s.L(ind + "}")
 	case "typeswitch":
 		g.site(kind, s.L(ind+"switch tv := any("+e+").(type) {"))
@@ -420,6 +449,8 @@ func use(v ...int) {}
 
 func useAny(v any) {}
 
+func apply(f func() int, v int) int { return f() + v }
+
 func itoa(n int) string {
 	if n == 0 {
 		return "0"
@@ -481,6 +512,8 @@ func at(k, id int) int {
 func use(v ...int) {}
 
 func useAny(v any) {}
+
+func apply(f func() int, v int) int { return f() + v }
 
 type LT struct{ N int }
 `
